@@ -150,8 +150,13 @@ func c08CacheChild(args []string) int {
 	dir := args[0]
 	// bound the address space so that a hostile document cannot take the machine down
 	_ = syscall.Setrlimit(9 /* RLIMIT_AS */, &syscall.Rlimit{Cur: 4 << 30, Max: 4 << 30})
+	withValidator := len(args) > 1 && args[1] == "validator"
+	if withValidator {
+		cdi.SetSpecValidator(schema.BuiltinSchema())
+	}
 	cache, _ := cdi.NewCache(cdi.WithSpecDirs(dir), cdi.WithAutoRefresh(true))
 	fmt.Println("ready")
+	toggle := 0
 	in := bufio.NewScanner(os.Stdin)
 	for in.Scan() {
 		name := in.Text()
@@ -177,7 +182,29 @@ func c08CacheChild(args []string) int {
 			}
 			time.Sleep(2 * time.Millisecond)
 		}
+		if withValidator {
+			// replace the validator after every probe: must not block, whatever the validator said about the file
+			done := make(chan bool, 1)
+			go func() {
+				toggle++
+				if toggle%2 == 0 {
+					cdi.SetSpecValidator(schema.BuiltinSchema())
+				} else {
+					cdi.SetSpecValidator(schema.NopSchema())
+				}
+				_ = cache.ListDevices()
+				done <- true
+			}()
+			select {
+			case <-done:
+			case <-time.After(5 * time.Second):
+				ans = "hang"
+			}
+		}
 		fmt.Println(ans)
+		if ans == "hang" {
+			os.Exit(3)
+		}
 	}
 	return 0
 }
@@ -189,9 +216,9 @@ type cacheChild struct {
 	dir string
 }
 
-func startCacheChild(dir string) (*cacheChild, error) {
+func startCacheChild(dir string, mode ...string) (*cacheChild, error) {
 	_ = os.MkdirAll(dir, 0o755)
-	cmd := exec.Command(os.Args[0], "c08-cache", dir)
+	cmd := exec.Command(os.Args[0], append([]string{"c08-cache", dir}, mode...)...)
 	in, _ := cmd.StdinPipe()
 	out, _ := cmd.StdoutPipe()
 	cmd.Stderr = nil
@@ -235,6 +262,10 @@ func (c *cacheChild) probe(name string, data []byte) (int, bool) {
 		// the child died: a panic on one of its goroutines (or it was killed by the memory limit)
 		_ = c.cmd.Wait()
 		return 2, false
+	}
+	if r.s == "hang" {
+		_ = c.cmd.Wait()
+		return 3, false
 	}
 	return 0, r.s == "error" || r.s == "loaded"
 }
@@ -379,6 +410,71 @@ func genC08(r *hx.R, tier, scratch string) (*hx.Suite, error) {
 		add("schema.ValidateData", data, cls, true, wellFormed)
 		cls = watchCall(func() { _ = sch.ValidateReader(bytes.NewReader(data)) }, limit)
 		add("schema.ValidateReader", data, cls, true, wellFormed)
+	}
+	// --- a live cache with an external Spec validator (the builtin schema) that is replaced after every file:
+	// documents the library loads but the validator rejects, and the mutation stream again
+	vdir := filepath.Join(scratch, "watched-v", "cdi")
+	vchild, err := startCacheChild(vdir, "validator")
+	if err != nil {
+		return nil, err
+	}
+	defer func() { vchild.stop() }()
+	for i := 0; i < nBytes/4+8; i++ {
+		var data []byte
+		wellFormed := true
+		if i%2 == 0 {
+			sp := &specs.Spec{Version: "0.7.0", Kind: hx.Pick(r, poolVendors) + "/" + hx.Pick(r, poolClasses)}
+			to := -1 - r.Intn(5)
+			d := specs.Device{Name: "dev0", ContainerEdits: specs.ContainerEdits{Env: []string{"A=b"}, Hooks: []*specs.Hook{{HookName: "prestart", Path: "/bin/h", Timeout: &to}}}}
+			sp.Devices = []specs.Device{d}
+			data, _ = json.Marshal(sp)
+		} else {
+			data = hx.Pick(r, corpus)
+			for k, n := 0, r.Intn(3); k < n; k++ {
+				data = mutateBytes(r, data)
+				wellFormed = false
+			}
+		}
+		ext := hx.Pick(r, []string{".json", ".yaml"})
+		c2, reported := vchild.probe("v"+ext, data)
+		add("live-cache+validator"+ext, data, c2, reported, wellFormed && i%2 != 0)
+		if c2 != 0 {
+			childDeaths++
+			vchild.stop()
+			if vchild, err = startCacheChild(vdir, "validator"); err != nil {
+				return nil, err
+			}
+		}
+	}
+	// --- OCI specs x valid (loadable) edits through ContainerEdits.Apply
+	for i := 0; i < nBytes; i++ {
+		init := randOCI(r, hosts, false)
+		e := randEdits(r, hosts, devDir, false)
+		ce := &cdi.ContainerEdits{ContainerEdits: e}
+		valid := false
+		cls := watchCall(func() { valid = ce.Validate() == nil }, limit)
+		if cls == 0 && valid {
+			cls = watchCall(func() { _ = ce.Apply(init) }, limit)
+		}
+		j, _ := json.Marshal(e)
+		add("ContainerEdits.Apply", j, cls, true, false)
+	}
+	// --- typed entry points handed nil / zero values
+	{
+		wc, _ := cdi.NewCache(cdi.WithSpecDirs(filepath.Join(scratch, "typed")), cdi.WithAutoRefresh(false))
+		var werr error
+		cls := watchCall(func() { werr = wc.WriteSpec(nil, "nil.json") }, limit)
+		add("Cache.WriteSpec(nil)", nil, cls, cls != 0 || werr != nil, false)
+		cls = watchCall(func() { werr = wc.WriteSpec(&specs.Spec{}, "zero.json") }, limit)
+		add("Cache.WriteSpec(zero Spec)", []byte("{}"), cls, cls != 0 || werr != nil, false)
+		cls = watchCall(func() { _ = sch.Validate(nil) }, limit)
+		add("schema.Validate(nil)", nil, cls, true, false)
+		cls = watchCall(func() { _, _ = wc.InjectDevices(nil, "a/b=c") }, limit)
+		add("Cache.InjectDevices(nil OCI)", nil, cls, true, false)
+		cls = watchCall(func() { _, _, _ = cdi.ParseAnnotations(nil) }, limit)
+		add("ParseAnnotations(nil map)", nil, cls, true, false)
+		cls = watchCall(func() { _, _ = cdi.UpdateAnnotations(nil, "p", "d", nil) }, limit)
+		add("UpdateAnnotations(nil map, nil devices)", nil, cls, true, false)
 	}
 	s.Extra = map[string]interface{}{"x_live_cache_child_deaths": childDeaths}
 	return s, nil
